@@ -45,7 +45,7 @@ def gen(rng, tier):
         elif target == 'maker':
             ops.append([party, 'maker', rng.choice(['bump', 'bump', 'boom', 'type_error', 'noop']), rng.choice([1, 2, 5]), v, i])
         else:
-            ops.append([party, 'managed', rng.choice(['make_use', 'nested_use']), rng.choice([1, 2, 3]), v, i])
+            ops.append([party, 'managed', rng.choice(['make_use', 'nested_use', 'shared_use']), rng.choice([1, 2, 3]), v, i])
     sc = {'ops': ops, 'concurrent': rng.choice([0, 0, 4, 8])}
     cfg = swarm(rng, racy=0.0, line=0.05, strategies=('random', 'weighted', 'sticky'), max_time=2000.0, max_steps=3_000_000)
     return {'scenario': sc, 'sim': cfg}
@@ -317,6 +317,34 @@ def run(sim, sc):
 def _managed_use(sim, party, meth, a, px, ag):
     """managed() return values are live proxies to the hosted value, not copies"""
     items = list(range(a))
+    if meth == 'shared_use':
+        # two independently obtained proxies of one hosted value: dropping one must not disturb the other
+        if party == 'main':
+            mk = px['maker']
+            p1 = mk.shared_list()
+            p2 = mk.shared_list()
+            n0 = len(p1)
+            p1.append('s1')
+            del p1
+            try:
+                p2.append('s2')
+                ok = len(p2) == n0 + 2
+            except Exception as e:
+                return ('second-proxy-unusable-after-the-first-was-dropped', repr(e)[:200])
+            if not ok:
+                return ('state-not-shared-between-proxies-of-one-value', '')
+        else:
+            r1 = ag.cmd('callhold', 'maker', 'shared_list', (), 'tmp_s1')
+            r2 = ag.cmd('callhold', 'maker', 'shared_list', (), 'tmp_s2')
+            n0 = ag.cmd('call', 'tmp_s1', '__len__', ())
+            ag.cmd('call', 'tmp_s1', 'append', ('s1',))
+            ag.cmd('drop', 'tmp_s1')
+            r3 = ag.cmd('thread_call' if party == 'agent_thread' else 'call', 'tmp_s2', 'append', ('s2',))
+            r4 = ag.cmd('call', 'tmp_s2', '__len__', ())
+            ag.cmd('drop', 'tmp_s2')
+            if r3[0] != 'RET' or r4[0] != 'RET' or n0[0] != 'RET' or r4[1] != n0[1] + 2:
+                return ('second-proxy-unusable-after-the-first-was-dropped', repr((r1, r2, n0, r3, r4))[:300])
+        return None
     if party == 'main':
         mk = px['maker']
         if meth == 'make_use':
